@@ -41,7 +41,7 @@ func runC22(c *an.Ctx) {
 		if !ok || b.Op != token.NEQ {
 			return false
 		}
-		return an.AccessPath(b.X) == "encoded" || an.AccessPath(b.Y) == "encoded"
+		return an.AccessPath(b.X) == fn.Params[0].Name() || an.AccessPath(b.Y) == fn.Params[0].Name()
 	}) {
 		cmp = v.(*ssa.BinOp)
 	}
@@ -54,7 +54,7 @@ func runC22(c *an.Ctx) {
 	c.Check(v.Holds && v.ActionSites >= 1, "guard|AddressFromBase58|re-encode-equals-input", "an accepted string equals the canonical encoding of the decoded address", c.P.Rel(fn.Pos()), v.Witness)
 	// the re-encoded value is ToBase58 of the very address returned
 	other := cmp.X
-	if an.AccessPath(cmp.X) == "encoded" {
+	if an.AccessPath(cmp.X) == fn.Params[0].Name() {
 		other = cmp.Y
 	}
 	ok := false
